@@ -101,8 +101,11 @@ static uint64_t opA(C& c, uint64_t k1, uint64_t k2)
     return x_insert(c, k1, 500, 3, 1000000);
 #elif METHOD == OP_ERASE
     return x_erase(c, k1);
+#elif METHOD == OP_FIND_PLAIN && (T_POLICY == P_LFU || T_POLICY == P_LFUDA)
+    r.cnt = 0; x_find_plain(c, k1, false, r); return r.ok ? 1 + 7 * r.val : 0;
 #else
-    x_find(c, k1, false, r); return r.ok;
+    // the complete result: presence, value and (lfu/lfuda) the reported use count
+    r.cnt = 0; x_find(c, k1, false, r); return r.ok ? 1 + 7 * r.val + 1000003 * (T_POLICY == P_LFU || T_POLICY == P_LFUDA ? r.cnt : 0) : 0;
 #endif
 }
 // logical thread B: kind 0 = observer (find_range of two keys with peek + size), kind 1 = writer (insert_range of the two
@@ -127,7 +130,7 @@ static void opB(C& c, uint64_t k1, uint64_t k2, Obs& o)
 }
 static void final_probe(C& c, Obs& o)
 {
-    for (int i = 0; i < NK; ++i) { Res r; x_find(c, (uint64_t)i, true, r); o.fin[i] = r.ok; o.finv[i] = r.val; }
+    for (int i = 0; i < NK; ++i) { Res r; r.cnt = 0; x_find(c, (uint64_t)i, true, r); o.fin[i] = r.ok; o.finv[i] = r.val + 1000003 * (T_POLICY == P_LFU || T_POLICY == P_LFUDA ? r.cnt : 0); }
     o.fsize = c.size();
 }
 
